@@ -110,7 +110,8 @@ def run_case(case):
         sol_raw = [np.asarray(a) for a in fsolve(dsl.lcm_params(params))]
         sol = [a / U for a in sol_raw]
         df1 = unscale(simcheck.simulate_once(fsim, params, init, sol_raw, seed=seed))
-        df2 = unscale(simcheck.simulate_once(fboth, params, init, None, seed=seed))
+        p_shared = dsl.lcm_params(params)  # ONE params mapping for the solve_and_simulate function
+        df2 = unscale(simcheck.simulate_once(fboth, params, init, None, seed=seed, p_obj=p_shared))
         if U != 1.0:
             cnt["c06_unit_scaled_models"] = 1
     except Exception as e:  # noqa: BLE001
@@ -124,12 +125,17 @@ def run_case(case):
     # the same function objects called again with other parameters: judged below like the first call
     runs = [(params, sol, df1)]
     p2 = gen.perturb_params(rng, params, desc.get("frozen_params", ()))
+    if case["index"] % 2 == 0:
+        p2["beta"] = params["beta"]  # only nested entries differ from the first call
     if ref.supported(ref.solve(p2))[0]:
         try:
             sol2_raw = [np.asarray(a) for a in fsolve(dsl.lcm_params(p2))]
             sol2 = [a / U for a in sol2_raw]
             df3 = unscale(simcheck.simulate_once(fsim, p2, init, sol2_raw, seed=seed))
-            df4 = unscale(simcheck.simulate_once(fboth, p2, init, None, seed=seed))
+            # the mapping used for the first call, edited in place (nested dict objects kept)
+            pipeline.update_params_in_place(p_shared, dsl.lcm_params(p2))
+            df4 = unscale(simcheck.simulate_once(fboth, p2, init, None, seed=seed, p_obj=p_shared))
+            cnt["c06_calls_with_params_edited_in_place"] = 1
             cnt["c06_second_calls"] = 1
             bad2 = simcheck.frames_equal(df3, df4, tol=1e-12)
             cnt["c06_frames_compared"] += 1
